@@ -1448,7 +1448,9 @@ void mmd_assign_ambidextrous_tokens_in_block(mmd_engine * e, token * block, size
 				}
 
 				// We can only close if there is something to left besides whitespace
-				if ((offset == 0) || (char_is_whitespace_or_line_ending(str[offset]))) {
+				// (when the run of markers reaches the very start of the text there is nothing to the left;
+				// otherwise str[offset] is the character to the left, also when it is the first one)
+				if (((offset == 0) && ((str[0] == '*') || (str[0] == '_'))) || (char_is_whitespace_or_line_ending(str[offset]))) {
 					// Whitespace or punctuation to left, so can't close
 					t->can_close = 0;
 				}
@@ -1566,13 +1568,14 @@ void mmd_assign_ambidextrous_tokens_in_block(mmd_engine * e, token * block, size
 					offset--;
 				}
 
-				if ((offset == 0) || (char_is_whitespace_or_line_ending(str[offset]))) {
-					// Whitespace to left, so can't close
+				if (((offset == 0) && ((str[0] == '_') || (str[0] == '*'))) || (char_is_whitespace_or_line_ending(str[offset]))) {
+					// Whitespace to left (or the very start of the text), so can't close
 					t->can_close = 0;
 				}
 
 				// We don't allow intraword underscores (e.g.  `foo_bar_foo`)
-				if ((offset > 0) && (char_is_alphanumeric(str[offset]))) {
+				// (str[offset] is the character to the left unless the markers reach the start of the text)
+				if (!((offset == 0) && ((str[0] == '_') || (str[0] == '*'))) && (char_is_alphanumeric(str[offset]))) {
 					// Letters to left, so can't open
 					t->can_open = 0;
 				}
